@@ -30,6 +30,7 @@ CharsetIdx(a) == LET I == {i \in 1..Len(a) : a[i][1] = None /\ Lower(a[i][2]) = 
 HasPragma(a)  == \E i \in 1..Len(a) : a[i][1] = None /\ a[i][2] = N_http_equiv /\ Lower(a[i][3]) = N_content_type
 ContentIdx(a) == LET I == {i \in 1..Len(a) : a[i][1] = None /\ a[i][2] = N_content}
                  IN IF I = {} THEN 0 ELSE CHOOSE i \in I : TRUE          \* attribute keys are unique in a token
+\* ASSUMED: a content-type pragma with a content attribute is a carrier even when content names no charset (it gets one)
 IsCarrier(tok) == IsTag(tok, "EmptyTag", N_meta) /\ (CharsetIdx(tok.a) # 0 \/ (HasPragma(tok.a) /\ ContentIdx(tok.a) # 0))
 RewriteMeta(tok, enc) ==
     LET ci == CharsetIdx(tok.a)  ki == ContentIdx(tok.a) IN
@@ -113,6 +114,7 @@ ExtractFrom(s, pos) ==
                    ELSE SubSeq(s, k, UntilAny(s, k, {9, 10, 12, 13, 32, 59}) - 1)
 ExtractCharset(s) == ExtractFrom(s, 1)
 \* the label a meta token declares (None if it declares nothing): charset attribute first, else the pragma
+\* ASSUMED: with both present the charset attribute decides for every reader, so a stale charset= inside content is no conflict
 StdDecl(tok) ==
     LET a == tok.a  ci == CharsetIdx(a)  ki == ContentIdx(a) IN
     IF ci # 0 THEN a[ci][3]
